@@ -399,3 +399,154 @@ func cutTo(s string, n int) string {
 	}
 	return s
 }
+
+// ---------------------------------------------------------------------------
+// D9: the probing forwarders Marshal / Unmarshal / Size. Each is a sequence of probes
+//   if v, ok := msg.(I); ok { return <call on v> }
+// followed by the documented fall-back result. The probe must be guarded by the positive ok of its own
+// assertion, every return inside it must be the table's call made with the asserted value (and, for Unmarshal,
+// with the data parameter), and nothing else may stand at the top level of the function.
+
+var probeCallee = map[string]map[string]string{
+	"Marshal":   {"own": "Marshal", "v1x": "XXX_Marshal", "v2": "Marshal"},
+	"Unmarshal": {"own": "Unmarshal", "v1x": "XXX_Unmarshal", "v2": "Unmarshal"},
+	"Size":      {"own": "Size", "v1x": "XXX_Size", "v2": "Size"},
+}
+
+func checkProbeForwarders(r *core.Result, prog *core.Program, pk *packages.Package) {
+	info := pk.TypesInfo
+	for _, name := range []string{"Marshal", "Unmarshal", "Size"} {
+		f := core.FindFunc(pk, name)
+		if f == nil || f.Decl == nil {
+			r.Fail("anchor", name, "", "function not found")
+			continue
+		}
+		cats := probeOrder(pk, f)
+		body := f.Decl.Body.List
+		var dataParam types.Object
+		for _, fl := range f.Decl.Type.Params.List {
+			for _, nm := range fl.Names {
+				if nm.Name == "data" {
+					dataParam = info.Defs[nm]
+				}
+			}
+		}
+		pi := 0
+		for i, st := range body {
+			is, isIf := st.(*ast.IfStmt)
+			if !isIf {
+				// only the final fall-back return may stand outside the probes
+				ret, isRet := st.(*ast.ReturnStmt)
+				okTail := isRet && i == len(body)-1
+				if okTail {
+					switch name {
+					case "Size":
+						okTail = len(ret.Results) == 1 && types.ExprString(ret.Results[0]) == "0"
+					case "Marshal":
+						okTail = len(ret.Results) == 2 && isNilIdent(ret.Results[0]) && types.ExprString(ret.Results[1]) == "ErrMarshaler"
+					case "Unmarshal":
+						okTail = len(ret.Results) == 1 && types.ExprString(ret.Results[0]) == "ErrUnmarshaler"
+					}
+				}
+				r.Ob("D9", fmt.Sprintf("%s :: statement %d outside the probes is the documented fall-back", name, i), prog.Pos(st.Pos()), okTail,
+					"outside its probes the function may only return the documented result for unsupported values (0 / ErrMarshaler / ErrUnmarshaler): "+cutTo(nodeString(st), 90))
+				continue
+			}
+			cat := "other"
+			if pi < len(cats) {
+				cat = cats[pi]
+			}
+			pi++
+			armName := fmt.Sprintf("%s :: probe %d (%s)", name, pi, cat)
+			as, _ := is.Init.(*ast.AssignStmt)
+			var vObj, okObj types.Object
+			if as != nil && len(as.Lhs) == 2 {
+				if id, ok := as.Lhs[0].(*ast.Ident); ok {
+					vObj = info.Defs[id]
+				}
+				if id, ok := as.Lhs[1].(*ast.Ident); ok {
+					okObj = info.Defs[id]
+				}
+			}
+			condID, _ := is.Cond.(*ast.Ident)
+			r.Ob("D9", armName+" is guarded by the success of its own assertion", prog.Pos(is.Pos()), condID != nil && okObj != nil && info.Uses[condID] == okObj && is.Else == nil,
+				"the probe body must run exactly when the assertion succeeded (condition: "+types.ExprString(is.Cond)+")")
+			want := probeCallee[name][cat]
+			// returns of the probe
+			nRet := 0
+			okRets := true
+			var why []string
+			ast.Inspect(is.Body, func(n ast.Node) bool {
+				ret, ok := n.(*ast.ReturnStmt)
+				if !ok {
+					return true
+				}
+				nRet++
+				if len(ret.Results) != 1 {
+					okRets = false
+					why = append(why, "return with "+fmt.Sprint(len(ret.Results))+" operands")
+					return true
+				}
+				c, ok := ret.Results[0].(*ast.CallExpr)
+				if !ok {
+					okRets = false
+					why = append(why, "returns "+types.ExprString(ret.Results[0])+", not a call")
+					return true
+				}
+				fn := staticCallee(info, c)
+				usesV, usesData := false, dataParam == nil
+				recvIsV := false
+				if se, ok := c.Fun.(*ast.SelectorExpr); ok {
+					if id, ok := se.X.(*ast.Ident); ok && info.Uses[id] == vObj {
+						recvIsV = true
+					}
+				}
+				for _, a := range c.Args {
+					if id, ok := a.(*ast.Ident); ok {
+						if info.Uses[id] == vObj {
+							usesV = true
+						}
+						if info.Uses[id] == dataParam {
+							usesData = true
+						}
+					}
+				}
+				switch {
+				case fn == nil || fn.Name() != want:
+					okRets = false
+					why = append(why, "calls "+types.ExprString(c.Fun)+", expected "+want)
+				case cat == "v2" && !usesV:
+					okRets = false
+					why = append(why, "the runtime call does not get the asserted message")
+				case cat != "v2" && !recvIsV:
+					okRets = false
+					why = append(why, "the method is not called on the asserted value")
+				case !usesData:
+					okRets = false
+					why = append(why, "the data parameter is not passed on")
+				}
+				if cat == "v2" {
+					if cf, ok := calleeFamily(fn); !ok || cf != "v2" {
+						okRets = false
+						why = append(why, "the call is not into the v2 runtime")
+					}
+				}
+				return true
+			})
+			r.Ob("D9", armName+" returns "+want+" of the asserted value", prog.Pos(is.Pos()), okRets && nRet == 1, strings.Join(why, "; ")+fmt.Sprintf(" (%d returns)", nRet))
+			// a buffer handed to an appending marshal function must be empty
+			ast.Inspect(is.Body, func(n ast.Node) bool {
+				c, ok := n.(*ast.CallExpr)
+				if !ok {
+					return true
+				}
+				if id, ok := c.Fun.(*ast.Ident); ok && id.Name == "make" && len(c.Args) >= 2 {
+					tv := info.Types[c.Args[1]]
+					r.Ob("D9", armName+" :: "+types.ExprString(c)+" has length 0", prog.Pos(c.Pos()), tv.Value != nil && tv.Value.ExactString() == "0",
+						"the buffer is appended to by the runtime's marshal function: a non-zero length leaves stray leading bytes in the output")
+				}
+				return true
+			})
+		}
+	}
+}
